@@ -146,6 +146,9 @@ package kzg
 // successful pairing check, and the caller's slices untouched (the products lambda_i * p_i are formed in the
 // function's own slice of random numbers). What the folded operands of the pairing check are is not stated here
 // (the proofs are a slice of structures, whose contents are not modelled).
+// (added) every folding coefficient beyond the first is drawn: one successful SetRandom per entry 1..n-1 has happened
+// before the quotients are folded (a ghost counter, checked before the multi-exponentiation) - an entry whose
+// coefficient stays 0 drops out of the pairing equation and its claim is accepted whatever it says.
 //@ func BatchVerifyMultiPoints
 //@ layer ring fr.Element bigint big.Int opaque bn254.G1Affine bn254.G1Jac bn254.G2Affine bn254.LineEvaluationAff
 //@ option nomerge
@@ -156,8 +159,16 @@ package kzg
 //@ + ghost single = isnil(callresult)
 //@ cut after call PairingCheckFixedQ #1
 //@ + ghost checked = callresult0 && isnil(callresult1)
+//@ ghost drawn = 0
+//@ ghost folded = false
+//@ cut after call SetRandom #*
+//@ + ghost drawn = drawn + 1
+//@ cut before call MultiExp #1
+//@ + invariant[every-coefficient-drawn] drawn == len(digests) - 1
+//@ + ghost folded = true
 //@ loop 0
-//@ + invariant[random] 1 <= i && len(randomNumbers) == len(digests) && len(digests) == len(proofs) && len(digests) == len(points) && len(digests) >= 2 && randomNumbers[0] == 1 && forall(j, 0, len(points), points[j] == old(points[j]))
+//@ + havoc drawn
+//@ + invariant[random] drawn == i - 1 && i <= len(digests) && 1 <= i && len(randomNumbers) == len(digests) && len(digests) == len(proofs) && len(digests) == len(points) && len(digests) >= 2 && randomNumbers[0] == 1 && forall(j, 0, len(points), points[j] == old(points[j]))
 //@ loop 1
 //@ + invariant[quotients] 0 <= i && len(randomNumbers) == len(digests) && len(quotients) == len(proofs) && len(digests) == len(proofs) && len(digests) == len(points) && len(digests) >= 2 && forall(j, 0, len(points), points[j] == old(points[j]))
 //@ loop 2
@@ -168,6 +179,7 @@ package kzg
 //@ ensures[empty] len(digests) == len(proofs) && len(digests) == len(points) && len(digests) == 0 ==> result == ErrZeroNbDigests
 //@ ensures[single] len(digests) == len(proofs) && len(digests) == len(points) && len(digests) == 1 ==> isnil(result) == single
 //@ ensures[accept] len(digests) >= 2 && isnil(result) ==> checked
+//@ ensures[accept-random] len(digests) >= 2 && isnil(result) ==> folded && drawn == len(digests) - 1
 //@ ensures[input] forall(j, 0, len(points), points[j] == old(points[j]))
 //@ modifies nothing
 //@ end
